@@ -1944,7 +1944,8 @@ impl Hash for OwnedTerm {
             OwnedTerm::Port(p) => p.hash(state),
             OwnedTerm::Reference(r) => r.hash(state),
             OwnedTerm::Nil => (),
-            OwnedTerm::Float(f) => f.to_bits().hash(state),
+            // 0.0 == -0.0, so both must hash alike
+            OwnedTerm::Float(f) => (if *f == 0.0 { 0.0f64 } else { *f }).to_bits().hash(state),
             OwnedTerm::BigInt(big) => big.hash(state),
             OwnedTerm::BitBinary { bytes, bits } => {
                 bytes.hash(state);
